@@ -7,6 +7,7 @@ The scenario is chosen from the obligation that was refuted:
                                            timeout ago, with and without `shutdown` and workers left
   *lost_only_if* / *no_job_reported_lost*  one worker exits, the job belongs to another, live one
   *job_of_a_reaped_worker_is_marked        the worker that accepted the job exits
+  *a_loss_record_is_never_replaced         the owner exits, then other workers are recycled every 6 s
 """
 import json
 import sys
@@ -65,6 +66,28 @@ def scenarios(ob):
             if a is not b:
                 out.append('reaping worker 99 replaced Pool.%s by a new object: the result handler / supervisor keep '
                            'using the old one (now %r, pool has %r)' % (name, a, b))
+    elif 'never_replaced' in ob:
+        # the owner of the job is killed and reaped (loss recorded at t); afterwards other workers keep being
+        # recycled, one every 6 s: the record must keep its time and status, and the job must fail once its
+        # timeout (10 s) is over
+        owner = FakeWorker(1, exitcode=-9)
+        others = [FakeWorker(10 + k) for k in range(6)]
+        p = mkpool([owner] + others)
+        job = pool.ApplyResult(p._cache, None, lost_worker_timeout=10.0)
+        job._ack(None, 999.0, 1, None)
+        p._join_exited_workers()
+        first = job._worker_lost
+        for w in others:
+            clock[0] += 6.0
+            w.exitcode = 155
+            p._join_exited_workers()
+            if not job.ready() and job._worker_lost != first:
+                out.append('job lost with its worker at t=1000 (record %r): reaping recycled worker %d at t=%.0f replaced the '
+                           'record by %r -- the grace period starts again and the exit status is forgotten' % (
+                               first, w.pid, clock[0], job._worker_lost))
+                break
+        if not out and not job.ready():
+            out.append('job lost at t=1000 with a timeout of 10 s is still unresolved at t=%.0f' % clock[0])
     elif 'vanished_worker' in ob or 'gone_worker' in ob:
         # the worker that accepted the job was reaped in an earlier tick, before its ACK was handled; a later tick
         # reaps another worker: the job must get its loss record then
@@ -99,7 +122,13 @@ def main():
     data = json.load(open(sys.argv[1]))
     ob = data['obligation']
     print('replay of %s / %s' % (data['function'], ob))
-    bad = scenarios(ob)
+    if 'bounded_cross_check' in ob:
+        # thorough tier: every scenario group
+        bad = []
+        for name in ('grace_period', 'registries', 'never_replaced', 'vanished_worker', 'reaped_worker_is_marked', 'other'):
+            bad += scenarios(name)
+    else:
+        bad = scenarios(ob)
     for b in bad:
         print('  violation on real code: ' + b)
     print('REPRODUCED on real code' if bad else 'not reproduced')
